@@ -405,6 +405,102 @@ def descr_bitcount(row, rhs, ops):
     return probs, True
 
 
+def int_reference(row, vals):
+    """WebAssembly result of the integer instruction `row` on operand bit patterns vals: ('value', bits) or ('trap', kind)"""
+    sem = row['sem']
+    cls = sem['cls']
+    W = W_OF[row['params'][0]]
+    M = (1 << W) - 1
+
+    def s(x):
+        x &= M
+        return x - (1 << W) if x >> (W - 1) else x
+    a = vals[0] & M
+    b = vals[1] & M if len(vals) > 1 else 0
+    if cls == 'eqz':
+        return ('value', int(a == 0))
+    if cls == 'icmp':
+        x, y = (s(a), s(b)) if sem['sign'] == 's' else (a, b)
+        return ('value', int({'==': x == y, '!=': x != y, '<': x < y, '>': x > y, '<=': x <= y, '>=': x >= y}[sem['op']]))
+    if cls == 'bin':
+        return ('value', {'+': a + b, '-': a - b, '*': a * b, '&': a & b, '|': a | b, '^': a ^ b}[sem['op']] & M)
+    if cls == 'shift':
+        k = b % W
+        if sem['dir'] == 'l':
+            return ('value', (a << k) & M)
+        return ('value', ((s(a) >> k) if sem['sign'] == 's' else (a >> k)) & M)
+    if cls == 'rot':
+        k = b % W
+        if sem['dir'] == 'r':
+            k = (W - k) % W
+        return ('value', ((a << k) | (a >> ((W - k) % W))) & M if k else a)
+    if cls in ('div', 'rem'):
+        if b == 0:
+            return ('trap', TRAP_DIVZERO)
+        if sem['sign'] == 's':
+            x, y = s(a), s(b)
+            if cls == 'div' and x == -(1 << (W - 1)) and y == -1:
+                return ('trap', TRAP_OVERFLOW)
+            q = abs(x) // abs(y)
+            if (x < 0) != (y < 0):
+                q = -q
+            return ('value', (q if cls == 'div' else x - q * y) & M)
+        return ('value', (a // b if cls == 'div' else a % b) & M)
+    if cls == 'clz':
+        return ('value', W - a.bit_length())
+    if cls == 'ctz':
+        return ('value', W if a == 0 else (a & -a).bit_length() - 1)
+    if cls == 'popcnt':
+        return ('value', bin(a).count('1'))
+    if cls == 'wrap':
+        return ('value', a & 0xFFFFFFFF)
+    if cls == 'extend':
+        fb = sem['from_bits']
+        x = a & ((1 << fb) - 1)
+        if sem['sign'] == 's' and x >> (fb - 1):
+            x |= ~((1 << fb) - 1)
+        return ('value', x & ((1 << W_OF[row['results'][0]]) - 1))
+    raise AnalysisBroken('no reference semantics for class %s' % cls)
+
+
+def int_grid(W):
+    top = 1 << (W - 1)
+    g = [0, 1, 2, 3, 4, 5, 7, 8, 31, 32, 33, 63, 64, 65, 0x80, 0xFF, 0x100, 0x7FFF, 0x8000, 0xFFFF, 0x10000, 0x7FFFFFFF, 0x80000000,
+         0xFFFFFFFF, 0x100000000, top - 1, top, top + 1, (1 << W) - 1, (1 << W) - 2, (1 << W) - 3, 0x0123456789ABCDEF, 0xFEDCBA9876543210,
+         1 << (W // 2), (1 << (W // 2)) - 1]
+    return sorted({x & ((1 << W) - 1) for x in g})
+
+
+def refute_on_grid(row, rhs, ops, Wres, small=False):
+    """evaluate the (unrecognised) template expression exactly on a grid of boundary operands against the specification; returns a
+    problem text for the first disagreement (a definite witness), None when every grid point agrees (which decides nothing more)"""
+    from .ctyperules import ieval, EvalTrap, EvalUB, EvalUnknown
+    W = W_OF[row['params'][0]]
+    grid = int_grid(W)
+    if small and len(ops) > 1:
+        top = 1 << (W - 1)
+        grid = sorted({0, 1, 2, 3, 31, 32, 33, 63, 64, 0xFF, top - 1, top, (1 << W) - 1, (1 << W) - 2, 0x0123456789ABCDEF & ((1 << W) - 1)})
+    pts = [(x,) for x in grid] if len(ops) == 1 else [(x, y) for x in grid for y in grid]
+    for vals in pts:
+        env = dict(zip(ops, vals))
+        want = int_reference(row, list(vals))
+        try:
+            got = ('value', ieval(rhs, env) & ((1 << Wres) - 1))
+        except EvalTrap as t:
+            got = ('trap', t.kind)
+        except EvalUB as u:
+            return 'for operands %s the emitted expression has undefined behaviour (%s); specification: %s' % (
+                ', '.join('0x%X' % v for v in vals), u, '%s 0x%X' % want if want[0] == 'value' else 'trap %s' % want[1])
+        except EvalUnknown as u:
+            raise AnalysisBroken('%s: not evaluable (%s)' % (row['name'], u))
+        if got != want:
+            def show(r):
+                return ('0x%X' % r[1]) if r[0] == 'value' else 'trap %s' % r[1]
+            return 'for operands %s the emitted expression gives %s, the specification requires %s' % (
+                ', '.join('0x%X' % v for v in vals), show(got), show(want))
+    return None
+
+
 def descr_castchain(row, rhs, ops, Wres):
     """wrap / extend: the value finally stored (rhs already includes the conversion to the slot type)"""
     sem = row['sem']
@@ -532,6 +628,9 @@ def descr_fneg(row, rhs, ops):
     if e.k == 'un' and e.x == '-':
         if not float_slot(e.a[0], ops[0], W):
             return ['negates %r, expected %s' % (e.a[0], ops[0])]
+        if any(x.k == 'cast' and x.x == 'FloatingCast' for x in walk_e(rhs)):
+            return ['the operand is converted to another floating format around the negation: a signalling NaN is quieted, but neg must '
+                    'keep every NaN bit pattern intact']
         return []
     if e.k == 'bin':
         return ['negation is computed arithmetically as %r - NaN payload/sign and -0 are not preserved' % (e,)]
@@ -556,6 +655,11 @@ def descr_libm(row, rhs, ops):
         return probs
     if fam[e.x] < W:
         probs.append('calls the binary%d function %s on a %d-bit operand (precision lost)' % (fam[e.x], e.x, W))
+    if cls in ('fabs', 'fcopysign') and (fam[e.x] != W or any(x.k == 'cast' and x.x == 'FloatingCast' for x in walk_e(rhs))):
+        # bit-preserving instructions: a detour through another floating format is a value conversion, and converting a signalling NaN
+        # quiets it (sets the top fraction bit) - the payload is no longer intact
+        probs.append('the %d-bit operand is converted to another floating format (%s works on binary%d): a signalling NaN is quieted on '
+                     'the way, but this instruction must keep every NaN bit pattern intact' % (W, e.x, fam[e.x]))
     for k, a in enumerate(e.a):
         if not float_slot(a, ops[k], W):
             probs.append('argument %d is %r, expected %s' % (k + 1, a, ops[k]))
